@@ -55,7 +55,6 @@ var (
 	cCandidate     = simrt.RegisterCounter("probe_second_frame_counter_candidate_on_the_same_frame")
 	cLegacyRefused = simrt.RegisterCounter("probe_frame_with_legacy_value_refused_not_judged")
 	cText          = simrt.RegisterCounter("probe_frames_received_as_base64_text")
-	cReuseRx       = simrt.RegisterCounter("probe_receiver_reuses_its_frame_value")
 
 	fLoss       = simrt.RegisterCounter("fault_loss")
 	fDup        = simrt.RegisterCounter("fault_duplicate")
